@@ -22,6 +22,10 @@
   derivation of the ring of the model's polynomials in normal form (`deriv_is_derivation`), hence
   `grad_poly` / `grad_poly_repaired` — now theorems, for every polynomial diagram — and
   `grad_poly_bubbles` for polynomial diagrams with bubbles (what the driver's `xgrad` computes).
+  SEQUENCES: `subs_then_grad`, `grad_then_subs`, `subs_grad_commute` — the gradient of a substituted
+  diagram, and the substituted gradient, evaluate to the derivative of the substituted evaluation
+  resp. the substituted derivative (any ring homomorphism, any derivation), and agree when the
+  substitution commutes with the derivation.
   `decide`d witnesses of finding F9 (mixed meaning of `Scalar.grad`) on integer polynomials.
   NOT proved: that sympy's `diff` is such a derivation and that sympy's exp/sin/cos satisfy
   `PhaseHyp` (oracle; sympy's polynomial arithmetic is compared with the model's by the streams
@@ -243,6 +247,81 @@ theorem scalar_grad_mixed_meaning_witness_mixed :
     Poly.deriv 0 (Poly.var 0 * Poly.var 0)
       ≠ Poly.deriv 0 (Poly.var 0 * Poly.var 0) * Poly.deriv 0 (Poly.var 0 * Poly.var 0) := by
   decide
+
+/-! ### grad composed with substitution (sequences of parameter operations) -/
+
+/-- **subs then grad**: the gradient of the SUBSTITUTED diagram (σ any ring homomorphism commuting
+    with conjugation, e.g. y := an expression that may mention x) evaluates to the derivative of the
+    substituted evaluation. -/
+theorem subs_then_grad {R S : Type} [CommRing R] [CommRing S] [HasConj R] [HasConj S]
+    (σ : R →+* S) (hσ : ∀ x, σ (HasConj.conj x) = HasConj.conj (σ x))
+    (d : Deriv S) (checksFS : Bool) (dep : PBox S → Bool)
+    (hconj : ∀ x, d.D (HasConj.conj x) = HasConj.conj (d.D x))
+    (hdep : ∀ b, dep b = false → ∀ i j, d.D (b.arr i j) = 0)
+    (ls : List (PLayer R)) (i k : Nat) :
+    evalSum (gradLayers dep (boxGrad checksFS dep d.D) (ls.map (PLayer.mapData σ))) i k
+      = d.D (σ (evalLayers ls i k)) := by
+  rw [grad_tensor_boxes d checksFS dep hconj hdep,
+      congrFun (congrFun (evalLayers_natural σ hσ ls) i) k]
+
+/-- **grad then subs**: substituting in every term of the gradient (cat.Sum.subs, cat.py:721-723)
+    and evaluating gives the substituted derivative of the evaluation. -/
+theorem grad_then_subs {R S : Type} [CommRing R] [CommRing S] [HasConj R] [HasConj S]
+    (σ : R →+* S) (hσ : ∀ x, σ (HasConj.conj x) = HasConj.conj (σ x))
+    (d : Deriv R) (checksFS : Bool) (dep : PBox R → Bool)
+    (hconj : ∀ x, d.D (HasConj.conj x) = HasConj.conj (d.D x))
+    (hdep : ∀ b, dep b = false → ∀ i j, d.D (b.arr i j) = 0)
+    (ls : List (PLayer R)) (i k : Nat) :
+    evalSum ((gradLayers dep (boxGrad checksFS dep d.D) ls).map (·.map (PLayer.mapData σ))) i k
+      = σ (d.D (evalLayers ls i k)) := by
+  rw [← grad_tensor_boxes d checksFS dep hconj hdep ls i k]
+  unfold evalSum
+  rw [hom_sum_map, List.map_map]
+  apply congrArg
+  apply List.map_congr_left
+  intro t _
+  exact congrFun (congrFun (evalLayers_natural σ hσ t) i) k
+
+/-- The two orders agree whenever the substitution commutes with the derivations (y := a value or
+    an expression free of x). -/
+theorem subs_grad_commute {R S : Type} [CommRing R] [CommRing S] [HasConj R] [HasConj S]
+    (σ : R →+* S) (hσ : ∀ x, σ (HasConj.conj x) = HasConj.conj (σ x))
+    (d : Deriv R) (d' : Deriv S) (hcomm : ∀ x, d'.D (σ x) = σ (d.D x))
+    (checksFS : Bool) (dep : PBox R → Bool) (dep' : PBox S → Bool)
+    (hconj : ∀ x, d.D (HasConj.conj x) = HasConj.conj (d.D x))
+    (hconj' : ∀ x, d'.D (HasConj.conj x) = HasConj.conj (d'.D x))
+    (hdep : ∀ b, dep b = false → ∀ i j, d.D (b.arr i j) = 0)
+    (hdep' : ∀ b, dep' b = false → ∀ i j, d'.D (b.arr i j) = 0)
+    (ls : List (PLayer R)) (i k : Nat) :
+    evalSum (gradLayers dep' (boxGrad checksFS dep' d'.D) (ls.map (PLayer.mapData σ))) i k
+      = evalSum ((gradLayers dep (boxGrad checksFS dep d.D) ls).map (·.map (PLayer.mapData σ))) i k := by
+  rw [subs_then_grad σ hσ d' checksFS dep' hconj' hdep', grad_then_subs σ hσ d checksFS dep hconj hdep,
+      hcomm]
+
+/-- The hypotheses of `subs_then_grad` / `grad_then_subs` are met by the executable ring: the
+    substitution x1 := x0², which mentions the variable x0 differentiated afterwards. -/
+example (ls : List (PLayer NPoly)) (i k : Nat) :
+    evalSum (gradLayers (npolyDep 0) (boxGrad true (npolyDep 0) (NPoly.derivN 0).D)
+        (ls.map (PLayer.mapData
+          (NPoly.substHom (fun n => if n = 1 then Poly.var 0 * Poly.var 0 else Poly.var n))))) i k
+      = (NPoly.derivN 0).D
+          (NPoly.substHom (fun n => if n = 1 then Poly.var 0 * Poly.var 0 else Poly.var n)
+            (evalLayers ls i k)) :=
+  subs_then_grad _ (fun _ => rfl) (NPoly.derivN 0) true (npolyDep 0) (NPoly.derivN_conj 0)
+    (npolyDep_spec 0) ls i k
+
+example (ls : List (PLayer NPoly)) (i k : Nat) :
+    evalSum ((gradLayers (npolyDep 0) (boxGrad true (npolyDep 0) (NPoly.derivN 0).D) ls).map
+        (·.map (PLayer.mapData (NPoly.substHom (fun n => if n = 1 then Poly.const 2 else Poly.var n))))) i k
+      = NPoly.substHom (fun n => if n = 1 then Poly.const 2 else Poly.var n)
+          ((NPoly.derivN 0).D (evalLayers ls i k)) :=
+  grad_then_subs _ (fun _ => rfl) (NPoly.derivN 0) true (npolyDep 0) (NPoly.derivN_conj 0)
+    (npolyDep_spec 0) ls i k
+
+example (ls : List (PLayer NPoly)) (i k : Nat) :=
+  subs_grad_commute (RingHom.id NPoly) (fun _ => rfl) (NPoly.derivN 0) (NPoly.derivN 0) (fun _ => rfl)
+    true (npolyDep 0) (npolyDep 0) (NPoly.derivN_conj 0) (NPoly.derivN_conj 0) (npolyDep_spec 0)
+    (npolyDep_spec 0) ls i k
 
 /-! ### non-vacuity: first-order jets over ℤ/17 (Proofs/ParamJet.lean) -/
 
